@@ -23,6 +23,18 @@ class Opaque:
         return '<opaque %s>' % (U(self.expr)[:40] if isinstance(self.expr, ast.AST) else self.expr)
 
 
+def membership_test_on(t, name):
+    """`k in D` / `k not in D` / `not k in D` on the mapping `name` (the "already done" idiom)"""
+    while isinstance(t, ast.UnaryOp) and isinstance(t.op, ast.Not):
+        t = t.operand
+    return isinstance(t, ast.Compare) and len(t.ops) == 1 and isinstance(t.ops[0], (ast.In, ast.NotIn)) and U(t.comparators[0]) == name
+
+
+def empty_dict(v):
+    e = getattr(v, 'expr', None)
+    return getattr(v, 'tag', None) is None and ((isinstance(e, ast.Dict) and not e.keys) or (isinstance(e, ast.Call) and U(e.func) == 'dict' and not e.args))
+
+
 class SymExec:
     def __init__(self, fi, flags=None, env=None, atoms=None, call_hook=None, stmt_hook=None, loop_hook=None, vectors=False):
         self.fi = fi
@@ -232,6 +244,10 @@ class SymExec:
                     merged[k] = a
                 elif isinstance(a, Opaque) and isinstance(b, Opaque) and self.same_opaque(a, b):
                     merged[k] = a
+                elif isinstance(a, Opaque) and isinstance(b, Opaque) and membership_test_on(s.test, k) and (
+                        (getattr(a.tag, 'kind', None) == 'dictof' and empty_dict(b)) or (getattr(b.tag, 'kind', None) == 'dictof' and empty_dict(a))):
+                    # a mapping that is still empty on one path: the element type of the other path
+                    merged[k] = a if getattr(a.tag, 'kind', None) == 'dictof' else b
                 elif isinstance(a, Alg) or isinstance(b, Alg):
                     merged[k] = Alg(Rat.sym('%s@%d' % (k, s.lineno)))
                 else:
